@@ -18,6 +18,7 @@ LEVEL_NOTE = ("Not decided: that tree-sitter reports the matches it should, the 
 LEVEL_TEXT += (' Also: (C03.C) a capture evaluates to Value::from_nodes(graph, mat.nodes_for_capture_index(index), quantifier) in both modes and no query cursor is restricted; (C03.V) the public match visitors expose all named captures, filtering only the internal full-match capture; (E5.q) File.stanzas is push-only by the parser and no compiled Query is mutated (disable_capture/disable_pattern), with a positive control in the control crate.')
 LEVEL_TEXT += (' The stanza-level full-match lookup is `nodes_for_capture_index(index).next()` failing only on no node (E2.x-c slice): a stricter lookup would skip matches of grouped patterns.')
 
+LEVEL_TEXT += (" (C03.C) the query cursor is run from tree.root_node() with the caller's source bytes as the text provider of predicates; (C06.E) the checker's stanza and statement loops reach a check on every cycle, so every stanza's capture and full-match indices are resolved.")
 S_FIELDS = {"stanza_capture_index", "full_match_stanza_capture_index"}
 F_FIELDS = {"file_capture_index", "full_match_file_capture_index"}
 
@@ -350,6 +351,24 @@ def capture_and_cursor(prog, rep):
             detail = str(a)[:200]
         rep.check(ok, "C03.C", "%s :: capture evaluation" % f.id, f.loc(), "from_nodes(graph, mat.nodes_for_capture_index(idx), self.quantifier)", "a capture is not evaluated from tree-sitter's own node iterator for that capture index: " + detail)
     unrestricted_cursors(prog, rep, "C03.C")
+    # matches are searched from the root of the caller's tree, and text predicates read the caller's whole source
+    nm_ = 0
+    for f in prog.shape_fns():
+        if f.body is None or f.crate.prefix != "tsg":
+            continue
+        tr = Tracer(f.body)
+        for b, t in f.body.calls():
+            if not is_callee(t, r"tree_sitter::QueryCursor::(matches|captures)$"):
+                continue
+            nm_ += 1
+            root = canon(strip(tr.operand(t["args"][2])))
+            text = canon(strip(tr.operand(t["args"][3])))
+            rep.check(re.match(r"^Tree::root_node\(&?\**arg:\w+\)$", root) is not None, "C03.C", "%s :: searched node" % f.id, sp_str(t["sp"]),
+                      "matches are searched from tree.root_node()", "the query is not run from the root node of the caller's tree (%s): matches outside it are not reported" % root[:120])
+            rep.check(re.match(r"^(str::as_bytes|String::as_bytes|AsRef::as_ref|<str as AsRef<\[u8\]>>::as_ref)\(&?\**arg:\w+\)$", text) is not None, "C03.C", "%s :: text provider" % f.id, sp_str(t["sp"]),
+                      "text predicates read the caller's source bytes (source.as_bytes())",
+                      "text predicates (#eq?, #match?, …) do not read the caller's source text as it is (%s): a predicate decides on other text than the node's, so matches are lost or invented" % text[:160])
+    rep.floor("C03.C", nm_, 2, "QueryCursor::matches calls")
     ncur = sum(1 for f in prog.shape_fns() if f.body is not None for b, t in f.body.calls() if is_callee(t, r"tree_sitter::QueryCursor::new$"))
     rep.floor("C03.C", ncur, 2, "query cursors")
 
@@ -440,6 +459,10 @@ def run(prog, rep):
         rep.check(len(preds) == len(good) and len(filters) == len(good) and good, "C03.V", "%s :: exposed captures" % f.id, f.loc(), "%d visitor construction(s): captures filtered by `index != full-match index` only" % len(good),
                   "the visitor hides captures by another criterion than the full-match index (predicates: %s; %d filtering adaptors)" % ([r[:80] for c, r in preds], len(filters)))
     rep.floor("C03.V", nv, 3, "visitor constructions")
+    # every stanza is resolved: the checker is what sets a stanza's capture and full-match indices
+    from . import C06
+    ne = C06.every_element_checked(prog, rep, only=lambda f: f.self_path in ("tsg::ast::File", "tsg::ast::Stanza"))
+    rep.floor("C06.E", ne, 2, "stanza / statement loops of the checker")
     # E3.p
     rep.rule("E3.p", "one pattern per stanza; the merged query text is appended exactly once per stanza, in order; parse_stanza is the only producer of stanzas")
     ctx = e1_panic.Ctx(prog)
